@@ -105,9 +105,27 @@ def _enclosing(meta_functions, lemmas, line):
     return (None, None)
 
 
+_AUDIT = None
+
+
+def _prelude_audit():
+    """tools/audit_preludes.py once per process: a trusted prelude whose shims contradict each other would make proofs vacuous"""
+    global _AUDIT
+    if _AUDIT is None:
+        p = subprocess.run([os.path.join(VERIF, "tools", "audit_preludes.py")], capture_output=True, text=True)
+        _AUDIT = (p.returncode == 0, (p.stdout or "").strip().split("\n")[0][:300])
+    return _AUDIT
+
+
 def run_unit(unit, repo, tier="quick", seed=0, do_vacuity=True):
     r = UnitResult(unit)
     t0 = time.time()
+    ok_, msg_ = _prelude_audit()
+    if not ok_:
+        r.status = "undecided"
+        r.reason = "prelude audit: %s" % msg_
+        r.wall_s = time.time() - t0
+        return r
     try:
         g = vxgen.generate(unit, repo, BUILD)
     except vxgen.Undecided as e:
@@ -285,6 +303,13 @@ def run_unit(unit, repo, tier="quick", seed=0, do_vacuity=True):
             r.seeds_checked.append(extra_seed)
     if do_vacuity and r.status == "ok":
         r.vacuity = run_vacuity(g, meta)
+        if not r.vacuity.get("error") and not r.vacuity.get("vacuous"):
+            ef = run_ensures_false(g, meta)
+            r.vacuity["ensures_false_checked"] = ef.get("checked", 0)
+            if ef.get("error"):
+                r.vacuity["error"] = ef["error"]
+            elif ef.get("vacuous"):
+                r.vacuity["vacuous"] = ef["vacuous"]
         if r.vacuity.get("error"):
             r.status = "undecided"
             r.reason = "vacuity guard could not run: %s" % r.vacuity["error"]
@@ -389,3 +414,67 @@ def run_vacuity(g, meta):
         if (j + 1) not in failed_lines:
             res["vacuous"].append(key)
     return res
+
+
+def run_ensures_false(g, meta):
+    """Second vacuity guard (added after a shim whose `ensures` contradicted itself made a whole unit vacuous): next to every
+    contracted function a COPY is placed (same signature, requires and body; callers keep calling the original) whose only
+    postcondition is `false`. Each copy must FAIL; a copy that verifies proves `false` at its exit, i.e. the function is
+    checked under contradictory assumptions (or never returns - none of ours)."""
+    by_fn = {}
+    for c in meta["clauses"]:
+        if c["kind"] == "post":
+            by_fn.setdefault(c["fn"], []).append(c)
+    fns = {f["fn"]: f for f in meta["functions"]}
+    lines = list(g.lines)
+    copies = {}   # after generated line L (1-based): list of lines to insert
+    names = {}
+    for fn, cs in by_fn.items():
+        f = fns.get(fn)
+        if not f:
+            continue
+        first_c, last_c = min(c["first"] for c in cs), max(c["last"] for c in cs)
+        seg = lines[f["first"] - 1:f["last"]]
+        short = fn.split("::")[-1]
+        ens_kw = first_c - 1 - f["first"]          # index in seg of the `ensures` keyword line
+        if ens_kw < 0 or "ensures" not in seg[ens_kw]:
+            continue
+        head = seg[:ens_kw]
+        hm = re.sub(r"\bfn\s+%s\b" % re.escape(short), "fn %s_vac_" % short, "\n".join(head), count=1)
+        if hm == "\n".join(head):
+            continue
+        body = seg[last_c - f["first"] + 1:]
+        # the success path is the one that runs through every call: for a Result-returning function the guard is
+        # `r is Ok ==> false` (an early `?` exit would make plain `false` fail even in a contradictory context)
+        mres = re.search(r"->\s*\(\s*(\w+)\s*:\s*(?:std::result::)?(?:Migration)?Result\s*<", hm)
+        guard = ("%s is Ok ==> false" % mres.group(1)) if mres else "false"
+        cp = hm.split("\n") + ["        ensures %s, // vacuity guard: this copy must fail" % guard] + body
+        copies[f["last"]] = cp
+        names[short + "_vac_"] = fn
+    if not copies:
+        return dict(checked=0, vacuous=[])
+    out_lines, spans = [], {}
+    for i_, ln in enumerate(lines, 1):
+        out_lines.append(ln)
+        if i_ in copies:
+            a = len(out_lines) + 1
+            out_lines.extend(copies[i_])
+            spans[(a, len(out_lines))] = [k for k, v in names.items() if v == [fn_ for fn_, f_ in fns.items() if f_["last"] == i_ and fn_ in by_fn][0]][0]
+    path = os.path.join(BUILD, g.unit_name + "_vacuity2.rs")
+    with open(path, "w") as f:
+        f.write("\n".join(out_lines) + "\n")
+    cmd, out, diags, stderr, wall = _run_verus(path)
+    if out is None:
+        return dict(checked=len(names), error="verus failed on the ensures-false file")
+    sem, rs, other = _classify(diags)
+    if other:
+        return dict(checked=len(names), error="ensures-false file rejected: " + "; ".join(d.get("message", "") for d in other[:2]))
+    failed = set()
+    for d in sem + rs:
+        for sp in d.get("spans", []):
+            ln = sp.get("line_start", 0)
+            for (a, b), nm in spans.items():
+                if a <= ln <= b:
+                    failed.add(nm)
+    vac = sorted(names[nm] for nm in names if nm not in failed)
+    return dict(checked=len(names), vacuous=vac, file=path)
